@@ -86,6 +86,12 @@ CHECKS = {
         technique='z3 equivalence queries (all 2^n selections at once) between the reference configuration semantics and an independent interpreter of the emitted Clafer subset, per enumerated model; identifier consistency on the parsed text',
         text='The real Clafer writer runs on every enumerated fragment model with constraints and attributes; the text is interpreted under Clafer group / cardinality semantics and one z3 query per program decides equivalence over all selections; declarations and uses of identifiers are compared. Bounded.',
         note='Trusted: z3, tree2z3, interp.clafer2z3. N<=4/5 within the Clafer fragment.'),
+    'C01': dict(
+        category='model_checking', design_ref='6 C01/C05/C06/C07/C08',
+        technique='CrossHair symbolic execution (z3) of the UVL writer leaves and whole writer composed with the real UVLReader.transform() on real parse trees whose payload tokens carry symbolic text (token substitution; lexer as a validated contract)',
+        text='Group and feature cardinalities, names and attribute values are symbolic: the real writer leaf produces the piece, the piece becomes the text of the payload token of a really parsed template, the real reader runs on the tree, '
+             'and the whole-model writer text is tied to the pieces. Files, lexer and parser run for real in native batches over shapes, the name alphabet and all depth<=2 constraint trees. Bounded.',
+        note='Trusted: CrossHair + patches, z3, the lexer contract (probed from and validated against the installed lexer on every run), snapshot(). N<=4/5, |name|<=3/4, rendered ints bounded. Induction over cycles is an argument on paper; cycles 2-3 run natively.'),
 }
 
 NOT_YET = {}
